@@ -19,7 +19,8 @@ out     := f <kind> | t <hex> | b <hex> | r <0|1> rstate out | fl <id> <hc> <hi>
 rstate  := <code> <hexline> <nh> (<k> <nv> (g <hex> | x)*)* <nc> (<k> <v>)*
 item    := e | t <hex> | b <hex> | y out | rr out | ex | un <hex>
 errh    := c out | bd | ex
-req     := <id> <head> <fw> <pathok> <hexpath> <hexurlrepr> <json> route
+req     := <id> <head> <fw> <pathok> <hexpath> <hexurlrepr> <json> arrival route
+arrival := - | <byHook> <head> <hexpath> <hexurlrepr>      (the request before hook byHook rewrote it)
 route   := h handler | nf | na <hexallow>
 handler := effs (ret out | rr out | ex)
 hreq    := req <bodyerr> <singleton> <ext>   singleton := - | <k>   (the outcome object is the application's module-level object k)
@@ -205,9 +206,16 @@ def pReq : P Req := do
   let path ← pStr
   let url ← pStr
   let js ← pBool
+  let ar ← tok
+  let arrival ← (if ar == "-" then pure none else do
+    let k ← (match ar.toNat? with | some n => pure n | none => failure)
+    let h ← pBool
+    let p ← pStr
+    let u ← pStr
+    pure (some { isHead := h, path := p, urlRepr := u, byHook := k : Arrival }))
   let route ← pRoute
   pure { id := id, isHead := head, fileWrapper := fw, pathOK := pok, path := path, urlRepr := url,
-         json := js, route := route }
+         json := js, route := route, arrival := arrival }
 
 def showEvent : Event → String
   | .before i => s!"b{i}"
@@ -288,7 +296,7 @@ def handle : List String → Option String
       let a ← pApp
       let r ← pReq
       pure (a, r)) rest
-    let res := wsgiC ca app Slots.fresh req
+    let res := wsgiC ca app Slots.fresh (effective app req)
     let (hb, ha) := hooksAfter app req
     let hooks := s!" hooks={showNatList hb}/{showNatList ha}"
     pure (if res.escaped then s!"ev={showEvents (res.events ++ serverEvents res)} escaped" ++ hooks
